@@ -42,4 +42,15 @@ PROPS = {
         "required_roots": ["wav/ima_adpcm/file", "wav/ms_adpcm/file", "caf/alac_16/file", "raw/gsm610/file", "au/g721_32/file", "xi/dpcm_16/file"],
         "assumptions": COMMON_ASSUME,
     },
+    "C10": {
+        "harness": "h_rt", "level": "exploration",
+        "technique": "complete enumeration of the finite (major x subtype x endian x channels x samplerate) grid and of all enumeration-command indices on the real library",
+        "level_text": "the property's finite domain is enumerated completely (plus unknown/zero major and subtype words and stray bits); each point runs sf_format_check, a real write-open, four typed writes, close and re-open on the real library",
+        "level_note": "SD2 goes through sf_open on a private temp dir (resource fork), everything else through the in-memory device; the 512 MB allocator cap turns absurd allocation requests into NULL",
+        "rule": "all (major in list + unknown + zero) x (subtype in list + unknown + zero) x endian{FILE,LITTLE,BIG,CPU} x channels{0,1,2,3,8,9,256,257,1024,1025} x samplerate{-1,0,1,8000,44100,2^31-1}; all indices -1..count of the SIMPLE/MAJOR/SUBTYPE lists. non-trivial = every grid point (each does check + real open)",
+        "bounds": {"quick": "complete grid", "thorough": "complete grid"},
+        "deadline": {"quick": 280, "thorough": 1200},
+        "required_roots": ["wav", "aiff", "sd2", "xi", "mpc2k"],
+        "assumptions": COMMON_ASSUME,
+    },
 }
